@@ -19,6 +19,7 @@
   Import-free (linked into gdrv).
 -/
 import Genshi.Model.Core
+import Genshi.Model.Str
 namespace Genshi.Heap
 open Genshi
 
@@ -108,6 +109,13 @@ inductive Ref where
   | priv (a : Nat)
   deriving DecidableEq, Repr, Inhabited
 
+/-- the expression of `py:attrs` -/
+inductive AttrsSpec where
+  | dict (kvs : List (Str × Expr))     -- a dict display with string keys `{'k': e, …}`
+  | pairs (kvs : List (Str × Expr))    -- a list display of pairs `[('k', e), …]`
+  | expr (e : Expr)                    -- any other expression of the fragment
+  deriving DecidableEq, Repr, Inhabited
+
 inductive DirKind where
   | pyIf (e : Expr)
   | pyFor (var : Str) (e : Expr)
@@ -118,6 +126,7 @@ inductive DirKind where
   | pyStrip (e : Option Expr)
   | pyDef (name : Str) (params : List (Str × Option Expr))   -- positional parameters, optional defaults
   | pyMatch (name : Str) (once : Bool)   -- `py:match` with a one-step element-name path; hint `match_once`
+  | pyAttrs (spec : AttrsSpec)
   | i18nDomain (d : Str)
   | i18nComment (c : Str)
   | i18nCtxt (c : Str)
@@ -141,14 +150,28 @@ def DirKind.isExtractable : DirKind → Bool
   | .i18nMsg | .i18nChoose => true
   | _ => false
 
+/-- the value of an attribute in a template START event: a string, or (interpolated: `title="T$a"`) a
+    reference to the Python list of TEXT / EXPR events `interpolate` built — a list owned by the template -/
+inductive AVal where
+  | plain (s : Str)
+  | interp (r : Ref)
+  deriving DecidableEq, Repr, Inhabited
+
+def AVal.isInterp : AVal → Bool
+  | .interp _ => true
+  | .plain _ => false
+
 inductive TEv where
   | out (e : Event)                 -- START (plain attribute values), END, TEXT, COMMENT, …
+  | startI (tag : QName) (attrs : List (QName × AVal))
+                                    -- START with at least one interpolated attribute value (or the START
+                                    -- `py:attrs` re-yields)
   | expr (e : Expr)                 -- EXPR
   | sub (dirs : Ref) (body : Ref)   -- SUB: references to the directive list and the sub-stream list
   | incl (t : Option Nat) (fb : Option Ref)
                                     -- INCLUDE with a static href: the template the loader finds for it
                                     -- (`none`: TemplateNotFound) and the prepared fallback list
-  | other                           -- EXEC, INCLUDE with a computed href, START with interpolated attributes:
+  | other                           -- EXEC, INCLUDE with a computed href:
                                     -- outside the step model
   deriving DecidableEq, Repr, Inhabited
 
